@@ -265,7 +265,12 @@ def setup():
         if err:
             log(err)
             return 2
-        ok, out = lake_build(["MF", "driver"])
+        mods = ["MF", "driver"]
+        for cfg in PROPS.PROPS.values():
+            for m in [cfg["module"]] + cfg.get("module_extra", []):
+                if m not in mods:
+                    mods.append(m)
+        ok, out = lake_build(mods)
         log(out[-3000:])
         if not ok:
             return 2
